@@ -169,7 +169,7 @@ PushManifest(r, t, c, mt) ==
 
 \* ---- chunked uploads.  An upload session belongs to a repository and is never
 \* forgotten (ocimem keeps committed and failed sessions). ----
-NewUp(off) == [buf |-> <<>>, expect |-> off, dead |-> FALSE]
+NewUp(off) == [buf |-> <<>>, expect |-> off, dead |-> FALSE, done |-> FALSE]
 \* PushBlobChunked: a fresh session u.
 PushBlobChunked(r, u) ==
   /\ ~Has(ups[r], u)
@@ -198,7 +198,9 @@ Cancel(r, u) ==
   /\ ups' = [ups EXCEPT ![r][u].dead = TRUE]
   /\ res' = OkR
   /\ UNCHANGED <<imm, blobs, mans, tags, touched>>
-\* Commit(digest of dd).  Succeeds iff the session is alive and the buffer is exactly dd.
+\* Commit(digest of dd).  Succeeds iff the session is alive and the buffer is exactly dd.  A failed
+\* attempt kills a session that has not been committed yet; content that has been committed
+\* once stays committable (a failed attempt must not invalidate it).
 Commit(r, u, dd) ==
   /\ Has(ups[r], u)
   /\ LET s == ups[r][u] IN
@@ -206,9 +208,9 @@ Commit(r, u, dd) ==
      ELSE IF dd \in Cids /\ s.buf = Cat[dd].bytes
        THEN /\ blobs' = [blobs EXCEPT ![r] = @ \cup {dd}]
             /\ res' = OkDesc(dd, None)
-            /\ UNCHANGED ups
+            /\ ups' = [ups EXCEPT ![r][u].done = TRUE]
        ELSE /\ res' = ErrR("DIGEST_INVALID")
-            /\ ups' = [ups EXCEPT ![r][u].dead = TRUE]
+            /\ ups' = [ups EXCEPT ![r][u].dead = ~s.done]
             /\ UNCHANGED blobs
   /\ UNCHANGED <<imm, mans, tags, touched>>
 
